@@ -103,22 +103,24 @@ fn markdown_comments_parser() -> anyhow::Result<impl CommentsParser> {
             let comment = &source_code[node.byte_range()];
             let prefix_idx = comment.find("[//]:")?;
             let start_search = prefix_idx + 5;
+            // A link reference definition without a title (`[//]: #`) or with an unterminated one
+            // is not a comment that can hold tags: skip it instead of panicking. `open_idx` is a
+            // byte index, so the delimiter is read from the byte slice, not by character position.
             let open_idx = comment[start_search..]
                 .find(|c| ['(', '"', '\''].contains(&c))
-                .map(|i| i + start_search)
-                .expect("comment is expected to have a title delimiter");
+                .map(|i| i + start_search)?;
 
-            let open_char = comment.chars().nth(open_idx).unwrap();
-            let close_char = match open_char {
+            let close_char = match comment[open_idx..].chars().next()? {
                 '(' => ')',
                 '"' => '"',
                 '\'' => '\'',
-                _ => unreachable!(),
+                _ => return None,
             };
 
-            let close_idx = comment
-                .rfind(close_char)
-                .expect("comment is expected to end with matching delimiter");
+            let close_idx = comment.rfind(close_char)?;
+            if close_idx <= open_idx {
+                return None;
+            }
 
             let mut result = String::with_capacity(comment.len());
             result.push_str(&comment[..prefix_idx]);
